@@ -48,7 +48,7 @@ type Msg struct {
 
 func (m *Msg) Get(k string) (string, bool) {
 	for _, h := range m.Headers {
-		if strings.EqualFold(h.K, k) {
+		if EqFold(h.K, k) {
 			return h.V, true
 		}
 	}
@@ -58,7 +58,7 @@ func (m *Msg) Get(k string) (string, bool) {
 func (m *Msg) GetAll(k string) []string {
 	var out []string
 	for _, h := range m.Headers {
-		if strings.EqualFold(h.K, k) {
+		if EqFold(h.K, k) {
 			out = append(out, h.V)
 		}
 	}
@@ -268,7 +268,7 @@ func framing(hs []Header, off int) (int, bool, error) {
 	cl := -1
 	chunked := false
 	for _, h := range hs {
-		if strings.EqualFold(h.K, "Content-Length") {
+		if EqFold(h.K, "Content-Length") {
 			if h.V == "" {
 				return 0, false, perr(off, "empty Content-Length")
 			}
@@ -286,8 +286,8 @@ func framing(hs []Header, off int) (int, bool, error) {
 			}
 			cl = n
 		}
-		if strings.EqualFold(h.K, "Transfer-Encoding") {
-			if !strings.EqualFold(h.V, "chunked") {
+		if EqFold(h.K, "Transfer-Encoding") {
+			if !EqFold(h.V, "chunked") {
 				return 0, false, perr(off, "unsupported Transfer-Encoding %q", h.V)
 			}
 			chunked = true
@@ -481,4 +481,36 @@ func Trunc(s string, n int) string {
 		return s
 	}
 	return s[:n] + fmt.Sprintf("...(%d bytes)", len(s))
+}
+
+// EqFold compares two strings ignoring the case of ASCII letters only (strings.EqualFold also folds
+// U+017F to 's' and U+212A to 'k', which no HTTP parser may do).
+func EqFold(a, b string) bool {
+	if len(a) != len(b) {
+		return false
+	}
+	for i := 0; i < len(a); i++ {
+		x, y := a[i], b[i]
+		if x >= 'A' && x <= 'Z' {
+			x += 32
+		}
+		if y >= 'A' && y <= 'Z' {
+			y += 32
+		}
+		if x != y {
+			return false
+		}
+	}
+	return true
+}
+
+// LowerASCII lower-cases ASCII letters only.
+func LowerASCII(s string) string {
+	b := []byte(s)
+	for i := range b {
+		if b[i] >= 'A' && b[i] <= 'Z' {
+			b[i] += 32
+		}
+	}
+	return string(b)
 }
